@@ -187,16 +187,14 @@ pub struct Harness {
     pub delete_all_pending: bool,
     /// number of document groups handed to the writer so far (process-wide counter base included)
     pub groups_expected: u64,
+    /// the merge-everything policy has been switched on (eager phases: after the prefix)
+    pub eager_on: bool,
 }
 
 pub fn new_writer(index: &Index, cfg: &Config) -> tantivy::Result<IndexWriter> {
     let opts = IndexWriterOptions::builder().num_worker_threads(cfg.workers).memory_budget_per_thread(15_000_000).num_merge_threads(1).build();
     let w: IndexWriter = index.writer_with_options(opts)?;
-    if cfg.eager_merges {
-        w.set_merge_policy(Box::new(EagerMergePolicy));
-    } else {
-        w.set_merge_policy(Box::new(NoMergePolicy));
-    }
+    w.set_merge_policy(Box::new(NoMergePolicy));
     Ok(w)
 }
 
@@ -210,7 +208,24 @@ impl Harness {
         };
         let index = Index::create(dir, schema, settings)?;
         let writer = new_writer(&index, cfg)?;
-        Ok(Harness { index, fields, writer: Some(writer), cfg: cfg.clone(), txn_opstamps: vec![], last_commit_opstamp: None, delete_all_pending: false, groups_expected: SEGMENTS_ADDED.load(std::sync::atomic::Ordering::SeqCst) })
+        Ok(Harness { index, fields, writer: Some(writer), cfg: cfg.clone(), txn_opstamps: vec![], last_commit_opstamp: None, delete_all_pending: false, groups_expected: SEGMENTS_ADDED.load(std::sync::atomic::Ordering::SeqCst), eager_on: false })
+    }
+
+    /// switch the merge-everything policy on (it applies at the next merge trigger, and to writers opened later)
+    pub fn enable_eager_merges(&mut self) {
+        self.eager_on = true;
+        if let Some(w) = self.writer.as_ref() {
+            w.set_merge_policy(Box::new(EagerMergePolicy));
+        }
+    }
+
+    fn reopen_writer(&mut self) -> tantivy::Result<()> {
+        let w = new_writer(&self.index, &self.cfg)?;
+        if self.eager_on {
+            w.set_merge_policy(Box::new(EagerMergePolicy));
+        }
+        self.writer = Some(w);
+        Ok(())
     }
 
     fn w(&mut self) -> &mut IndexWriter {
@@ -304,6 +319,15 @@ impl Harness {
             Op::Rollback => {
                 self.delete_all_pending = false;
                 self.w().rollback().map_err(|e| api(e, "rollback"))?;
+                // rollback builds a fresh writer with the default merge policy: restore the scenario's
+                let eager = self.eager_on;
+                if let Some(w) = self.writer.as_ref() {
+                    if eager {
+                        w.set_merge_policy(Box::new(EagerMergePolicy));
+                    } else {
+                        w.set_merge_policy(Box::new(NoMergePolicy));
+                    }
+                }
                 self.txn_opstamps.clear();
             }
             Op::MergeAll => {
@@ -321,14 +345,14 @@ impl Harness {
             Op::Reopen => {
                 self.delete_all_pending = false;
                 self.writer = None;
-                self.writer = Some(new_writer(&self.index, &self.cfg).map_err(|e| api(e, "writer (reopen)"))?);
+                self.reopen_writer().map_err(|e| api(e, "writer (reopen)"))?;
                 self.txn_opstamps.clear();
             }
             Op::WaitMergeReopen => {
                 self.delete_all_pending = false;
                 let w = self.writer.take().unwrap();
                 w.wait_merging_threads().map_err(|e| api(e, "wait_merging_threads"))?;
-                self.writer = Some(new_writer(&self.index, &self.cfg).map_err(|e| api(e, "writer (reopen)"))?);
+                self.reopen_writer().map_err(|e| api(e, "writer (reopen)"))?;
                 self.txn_opstamps.clear();
             }
         }
